@@ -196,6 +196,24 @@ class World:
                 pass
         return seq
 
+    def params(self, ch_id: str) -> dict:
+        """Timing parameters of a device channel id, read from the spec (not from channel objects)."""
+        fam = "dmm" if ch_id.startswith("dmm") else ("mw" if ch_id.startswith("mw") else ch_id.split("_")[0])
+        p = dict(BASE)
+        p.update({k: v for k, v in self.spec.items() if k in BASE})
+        p.update(self.spec.get("over", {}).get(fam, {}))
+        p["local"] = ch_id.endswith("_local")
+        p["rise"] = int(0.48 / p["bw"] * 1e3) if p["bw"] else 0
+        p["pjt_eff"] = p["pjt"] if p["pjt"] is not None else 2 * p["rise"]
+        p["eom"] = None
+        if ch_id == "rydberg_global" and self.spec.get("eom") is not None and p["bw"]:
+            e = dict(EOM_DEFAULT)
+            e.update(self.spec["eom"])
+            e["rise"] = int(0.48 / e["mod_bandwidth"] * 1e3)
+            e["buffer"] = e["custom_buffer_time"] or 2 * p["rise"]
+            p["eom"] = e
+        return p
+
     def chan_obj(self, seq, name):
         return seq._schedule[name].channel_obj
 
